@@ -40,6 +40,8 @@ def run(idx: Index, rep: Report, tier: str):
     an = Analyzer(idx, max_depth=5)
     check_hist_purity(idx, rep, an)
     check_assembly(idx, rep)
+    from ..rules.chunks import check_chunk_sum
+    check_chunk_sum(rep, "K9.shot-conservation", idx.function(f"{BOOT}::get_resampled_frequencies"), "ncount")
 
 
 def _is_accumulate(assign: ast.Assign) -> bool:
